@@ -65,15 +65,17 @@ class Taper(om.ExplicitComponent):
         # interpolation problem
         if symmetry:
             xp = np.array([-span, 0.0])
-            fp = np.array([taper_ratio, 1.0])
+            wp = np.array([1.0, 0.0])
 
         # Otherwise, we set up an interpolation problem for the entire wing, which
         # consists of two linear segments
         else:
             xp = np.array([-span / 2, 0.0, span / 2])
-            fp = np.array([taper_ratio, 1.0, taper_ratio])
+            wp = np.array([1.0, 0.0, 1.0])
 
-        taper = np.interp(x.real, xp.real, fp.real)
+        # The local taper is linear in the taper ratio: interpolate the (real) weight and
+        # keep the dependence on the taper ratio explicit so that a complex step survives.
+        taper = 1.0 + (taper_ratio - 1.0) * np.interp(x.real, xp.real, wp)
 
         # Modify the mesh based on the taper amount computed per spanwise section
         outputs["mesh"] = np.einsum("ijk,j->ijk", mesh - ref_axis, taper) + ref_axis
@@ -95,20 +97,17 @@ class Taper(om.ExplicitComponent):
         # interpolation problem
         if symmetry:
             xp = np.array([-span, 0.0])
-            fp = np.array([taper_ratio, 1.0])
+            dfp = np.array([1.0, 0.0])
 
         # Otherwise, we set up an interpolation problem for the entire wing, which
         # consists of two linear segments
         else:
             xp = np.array([-span / 2, 0.0, span / 2])
-            fp = np.array([taper_ratio, 1.0, taper_ratio])
+            dfp = np.array([1.0, 0.0, 1.0])
 
-        taper = np.interp(x, xp, fp)
-
-        if taper_ratio == 1.0:
-            dtaper = np.zeros(taper.shape)
-        else:
-            dtaper = (1.0 - taper) / (1.0 - taper_ratio)
+        # The local taper is linear in the taper ratio, so its derivative is the
+        # interpolation weight itself (also valid at taper_ratio == 1).
+        dtaper = np.interp(x, xp, dfp)
 
         partials["mesh", "taper"] = np.einsum("ijk, j->ijk", mesh - ref_axis, dtaper)
 
